@@ -1,0 +1,18 @@
+//go:build verif
+
+package daemon
+
+// Verification-only trace hooks of the daemon client and the accept loop
+// (property C26 of the Lean verification machinery); the log itself lives in
+// pkg/rpc (trace_verif.go). Compiled only with -tags verif.
+
+import "src.elv.sh/pkg/rpc"
+
+func verifInvoke(c *client, method string, req, res any) { rpc.VerifInvoke(c, method, req, res) }
+func verifDialBegin() bool                               { return rpc.VerifDialBegin() }
+func verifDialEnd(tok bool, req, res any, rpcClient *rpc.Client) {
+	rpc.VerifDialEnd(tok, req, res, rpcClient)
+}
+func verifReturn(req, res any, err error) { rpc.VerifReturn(req, res, err) }
+func verifGiveUp(req, res any)            { rpc.VerifGiveUp(req, res) }
+func verifAccepted(conn any)              { rpc.VerifAccepted(conn) }
